@@ -11,8 +11,13 @@ function hook::run() {
     export BINDING_CONTEXT_CURRENT_INDEX="${i}"
     export BINDING_CONTEXT_CURRENT_BINDING=$(context::jq -r '.binding // "unknown"')
 
+    # One handler name per line: a binding name may contain spaces.
     HANDLERS=$(hook::_get_possible_handler_names)
-    HANDLERS="${HANDLERS} __main__"
+    if [[ -n "${HANDLERS}" ]]; then
+      HANDLERS="${HANDLERS}"$'\n'"__main__"
+    else
+      HANDLERS="__main__"
+    fi
 
     hook::_run_first_available_handler "${HANDLERS}"
   done
@@ -69,13 +74,16 @@ function hook::_get_possible_handler_names() {
 function hook::_run_first_available_handler() {
   HANDLERS="$1"
 
-  for handler in ${HANDLERS}; do
-    if type $handler >/dev/null 2>&1; then
-      ($handler) # brackets are to run handler as a subprocess
+  # Do not split names into words: "__on_schedule::Every 20 minutes" is one (undefinable) name,
+  # not a list of commands to try.
+  local handler
+  while IFS= read -r -u 3 handler; do
+    if [[ -n "$handler" ]] && type "$handler" >/dev/null 2>&1; then
+      ("$handler") 3<&- # brackets are to run handler as a subprocess
       return $?
     fi
-  done
+  done 3<<< "${HANDLERS}"
 
-  >&2 printf "ERROR: Can't find any handler from the list: %s\n." "$(echo ${HANDLERS} | sed -E 's/[[:space:]]+/, /g')"
+  >&2 printf "ERROR: Can't find any handler from the list: %s\n." "${HANDLERS//$'\n'/, }"
   return 1
 }
